@@ -5,6 +5,7 @@ import (
 	"fmt"
 	"net"
 	"net/url"
+	"strconv"
 	"strings"
 
 	"github.com/vipnode/vipnode/v2/internal/pretty"
@@ -52,6 +53,11 @@ func normalizeNodeURI(nodeURI, nodeID, defaultHost, defaultPort string) (string,
 
 	if host == "" || isUnspecifiedHost(host) {
 		return "", errors.New("NodeURI is missing host")
+	}
+	if n, err := strconv.ParseUint(port, 10, 16); err != nil || n == 0 {
+		// Nobody can connect to that, and the node of a client that is
+		// handed such an address refuses it with an error.
+		return "", fmt.Errorf("NodeURI has an invalid port: %q", port)
 	}
 
 	u := &url.URL{
